@@ -29,13 +29,19 @@ pub struct TcpRun {
     pub end_tasks: [i64; 2],
     pub mains_finished: (bool, bool),
     pub stall_dump: String,
+    pub end_dump: String,
 }
 
 pub fn install_zone(plan: &Plan) {
     world::with(|w| {
         for f in &plan.flows {
             if let Some(n) = &f.target_name {
-                w.zone.insert(n.clone(), Some(IpAddr::V4(Ipv4Addr::from(f.target_ip))));
+                if f.target_fault.as_deref() != Some("unresolvable") {
+                    w.zone.insert(n.clone(), Some(IpAddr::V4(Ipv4Addr::from(f.target_ip))));
+                }
+            }
+            if f.target_fault.as_deref() == Some("blackhole") {
+                w.add_fault(world::FaultKind::ConnectHang, f.target_port, rt::NODE_SERVER, 1);
             }
         }
     });
@@ -46,9 +52,10 @@ pub fn flow_complete(f: &TcpFlow, ix: usize, o: &FlowObs) -> bool {
         return true;
     }
     match f.ending {
-        Ending::None => o.app.script_done && o.target.script_done && o.app.recv.len() >= f.down_total() && o.target.recv.len() >= expected_up(f, ix).len(),
-        Ending::AppAfterWrite | Ending::AppAfterAll | Ending::AppReset => o.app.closed_ns.is_some() && o.target.end.is_some(),
-        Ending::TargetAfterWrite | Ending::TargetAfterAll | Ending::TargetReset => o.target.closed_ns.is_some() && o.app.end.is_some(),
+        Ending::None => (o.app.script_done && o.target.script_done && o.app.recv.len() >= f.down_total() && o.target.recv.len() >= expected_up(f, ix).len()) || (o.app.end.is_some() && (o.target.end.is_some() || o.target_accepts == 0)),
+        _ if f.target_fault.is_some() => o.app.end.is_some() || o.app.closed_ns.is_some(),
+        Ending::AppAfterWrite | Ending::AppAfterAll | Ending::AppReset | Ending::AppAbandon => o.app.closed_ns.is_some() && o.target.end.is_some(),
+        Ending::TargetAfterWrite | Ending::TargetAfterAll | Ending::TargetReset | Ending::TargetAbandon => o.target.closed_ns.is_some() && o.app.end.is_some(),
     }
 }
 
@@ -99,6 +106,7 @@ async fn run_tcp_system_inner(plan: &Plan, atomic_handshake: bool, via_port: u16
         end_tasks: [0; 2],
         mains_finished: (false, false),
         stall_dump: String::new(),
+        end_dump: String::new(),
     };
     let mains = match start_system(&plan.config, "127.0.0.1", via_port).await {
         Ok(m) => m,
@@ -155,6 +163,9 @@ async fn run_tcp_system_inner(plan: &Plan, atomic_handshake: bool, via_port: u16
     tokio::time::sleep(Duration::from_secs(20)).await;
     run.end_sockets = world::with(|w| [w.open_sockets(rt::NODE_CLIENT), w.open_sockets(rt::NODE_SERVER)]);
     run.end_tasks = [rt::alive_tasks_of(rt::NODE_CLIENT), rt::alive_tasks_of(rt::NODE_SERVER)];
+    if run.end_sockets != run.idle_sockets {
+        run.end_dump = dump_conns();
+    }
     run.mains_finished = (mains.client.is_finished(), mains.server.is_finished());
     for o in obs {
         let mut g = o.lock().unwrap();
@@ -220,6 +231,8 @@ pub fn ending_name(e: Ending) -> &'static str {
         Ending::TargetAfterAll => "target-close-after-all",
         Ending::AppReset => "app-reset",
         Ending::TargetReset => "target-reset",
+        Ending::AppAbandon => "app-abandon",
+        Ending::TargetAbandon => "target-abandon",
     }
 }
 
@@ -277,7 +290,7 @@ pub fn check_c01(plan: &Plan, run: &TcpRun, w: &world::World) -> Vec<Violation> 
             Ending::TargetAfterWrite => (false, true, true, false),
             Ending::AppAfterAll => (true, true, false, true),
             Ending::AppAfterWrite => (true, false, false, true),
-            Ending::AppReset | Ending::TargetReset => (false, false, false, false),
+            Ending::AppReset | Ending::TargetReset | Ending::AppAbandon | Ending::TargetAbandon => (false, false, false, false),
         };
         // was the opposite direction still moving when this one ended? (qualifies the teardown-race finding)
         let down_active = !down_complete || !o.target.script_done;
@@ -327,7 +340,7 @@ pub fn gen_flow(g: &mut Gen, ix: usize, hs: LocalHs, ending: Ending, max_bytes: 
     let down = gen_ops(g, max_bytes);
     let up_total: usize = up.iter().map(|o| if let Op::Write(n) = o { *n } else { 0 }).sum();
     let target_waits_for = if g.chance(50) { 1 } else { g.range(1, up_total as u64) as usize };
-    TcpFlow { hs, target_name, target_ip, target_port, start_ms: *g.pick(&[0, 0, 0, 1, 7, 300]), up, down, target_waits_for, ending }
+    TcpFlow { hs, target_name, target_ip, target_port, start_ms: *g.pick(&[0, 0, 0, 1, 7, 300]), up, down, target_waits_for, ending, target_fault: None }
 }
 
 pub const C01_ENDINGS: [Ending; 5] = [Ending::None, Ending::AppAfterWrite, Ending::AppAfterAll, Ending::TargetAfterWrite, Ending::TargetAfterAll];
